@@ -1,7 +1,7 @@
 (* C03 - normal ordering yields the canonical form of the same operator. *)
 From Coq Require Import ZArith NArith List Bool.
 From OFV Require Import Base.Cplx Base.Lin Sem.PauliSem Sem.FermiSem Sem.BoseSem Model.SymbolicOp Model.LadderOp
-  Model.NormalOrder Thm.C01.SymHom Thm.C03.CAR Thm.C03.NormalOrderB Thm.C03.NormalOrderF Check.OpEquiv.
+  Model.NormalOrder Thm.C01.SymHom Thm.C03.CAR Thm.C03.NormalOrderB Thm.C03.NormalOrderF Thm.C03.NormalOrderFix Check.OpEquiv.
 Import ListNotations.
 
 (* the rewrite rules normal ordering applies are identities of the Fock-space semantics,
@@ -36,6 +36,13 @@ Print Assumptions C03_normal_ordered_term_sound.
 Theorem C03_normal_ordered_sound : forall op s, leq N.eqb (fden (normal_ordered_fermi0 op) s) (fden op s).
 Proof. exact normal_ordered_fermi0_sound. Qed.
 Print Assumptions C03_normal_ordered_sound.
+
+(* [F] a word that satisfies is_normal_ordered is left unchanged by the model (with the code's tolerance): one half of idempotence
+   and of "is_hermitian may rely on it", for every length and all modes *)
+Theorem C03_normal_ordered_word_fixed : forall t c, adj_ok fermi_pair_ok t = true -> small_tol (Cadd C0 c) = false ->
+  no_fermi_term t c = [(t, c)].
+Proof. exact normal_ordered_word_fixed. Qed.
+Print Assumptions C03_normal_ordered_word_fixed.
 
 (* [B] complete bounded domains (stated): the model of normal_ordered_ladder_term / _quad_term
    preserves the denotation, produces normal-ordered terms, and is idempotent *)
